@@ -764,6 +764,11 @@ class Model:
     def on_spawn(self, r):
         W = self.W
         self.stat('spawns')
+        if W is not None and r['t'] - W > 0.05:
+            # the wall clock has run ahead of the loop time: earlier spawns of this wake-up took long
+            self.stat('spawns_while_held_up')
+            if r['t'] - W >= 1.0:
+                self.stat('spawns_held_up_a_second_or_more')
         vt = ical.split_components(r['vtodo'], 'VTODO')
         props = vt[0] if vt else []
         pd = {}
